@@ -571,6 +571,143 @@ def evaluate_s(ctx, n):
     return orc
 
 
+# ---------------------------------------------------------------------------------------------
+# document() producer stream: the result list is built by addNodeInDocOrder per reference (FunctionDocument.cpp
+# getDoc) and flagged document order.  Node-set arguments with repeated / non-adjacent / adjacent URIs and
+# fragment identifiers over 2-4 in-memory documents, one- and two-argument form, mixed with '' (the stylesheet).
+
+D_DOCS = {n: '<!DOCTYPE %s [<!ATTLIST e id ID #IMPLIED>]><%s><e id="i1"/><e id="i2"><e id="i3"/></e><e id="i4"/></%s>' % (n.upper(), n.upper(), n.upper())
+          for n in "abcd"}
+D_FILES = {"%s.xml" % n: x for n, x in D_DOCS.items()}
+D_DIRECTED = [["a.xml", "b.xml", "a.xml"], ["a.xml#i2", "a.xml"], ["a.xml", "a.xml", "b.xml"], ["a.xml", "b.xml", "c.xml", "a.xml"],
+              ["b.xml", "a.xml#i3", "a.xml#i1", "b.xml"], ["a.xml#i2", "b.xml", "a.xml", "b.xml#i1", "a.xml#i1"], ["a.xml"],
+              ["a.xml", "b.xml", "c.xml", "d.xml", "c.xml", "b.xml", "a.xml"], ["a.xml", "", "a.xml"], ["", "b.xml", "", "b.xml#i4"],
+              ["b.xml#i4", "b.xml#i1", "b.xml", "a.xml", "b.xml#i2"], ["c.xml", "c.xml#i1", "c.xml"]]
+D_EXPRS = ["document(/s/r/@u)", "document(/s/r/@u, /)", "document(/s/r/@u) | document(/s/r/@u)",
+           "document(/s/r[1]/@u) | document(/s/r[position()>1]/@u)", "document(/s/r[position()>1]/@u) | document(/s/r[1]/@u)",
+           "document(/s/r/@u)/*", "document(/s/r/@u)/descendant-or-self::node()", "/ | document(/s/r/@u)",
+           "document(/s/r/@u)[1] | document(/s/r/@u)[last()]", "(document(/s/r/@u) | //r)/.."]
+
+
+def d_sheet():
+    body = []
+    for k, e in enumerate(D_EXPRS):
+        body.append('<xsl:text>&#10;%d:</xsl:text><xsl:for-each select="%s"><xsl:choose><xsl:when test="not(parent::node())">ROOT:<xsl:value-of select="name(*[1])"/></xsl:when>'
+                    '<xsl:otherwise><xsl:value-of select="name(/*)"/>#<xsl:value-of select="@id"/></xsl:otherwise></xsl:choose>/<xsl:value-of select="generate-id()"/>/'
+                    '<xsl:value-of select="generate-id(ancestor-or-self::node()[last()])"/>/<xsl:value-of select="count(ancestor::node()) + count(preceding::node())"/>,</xsl:for-each>' % (k, e))
+    return ('<xsl:stylesheet version="1.0" xmlns:xsl="http://www.w3.org/1999/XSL/Transform"><xsl:output method="text"/>'
+            '<xsl:template match="/">' + "".join(body) + '</xsl:template></xsl:stylesheet>')
+
+
+def d_cases(r, n):
+    out = []
+    for k in range(n):
+        if k < len(D_DIRECTED):
+            refs = D_DIRECTED[k]
+        else:
+            names = r.sample("abcd", r.choice([2, 2, 3, 4]))
+            refs = []
+            for _ in range(r.choice([2, 3, 3, 4, 5, 7])):
+                x = r.random()
+                d = r.choice(names)
+                refs.append("" if x < 0.08 else "%s.xml#i%d" % (d, r.randrange(1, 5)) if x < 0.4 else "%s.xml" % d)
+        src = "<s>" + "".join('<r u="%s"/>' % u for u in refs) + "</s>"
+        out.append({"id": "d%d" % k, "sheet": d_sheet(), "source": src, "files": D_FILES, "refs": refs})
+    return out
+
+
+def d_expected(refs):
+    """labels in the order the property demands: a block per document in order of first reference, the document
+    node first, then its elements in document order (ids i1 < i2 < i3 < i4 are in pre-order)"""
+    order, want = [], {}
+    for u in refs:
+        d, _, frag = u.partition("#")
+        if d not in order:
+            order.append(d)
+            want[d] = set()
+        want[d].add(frag)
+    out = []
+    for d in order:
+        name = d[0].upper()
+        for frag in sorted(want[d]):
+            out.append("ROOT:%s" % name if frag == "" else "%s#%s" % (name, frag))
+    return out
+
+
+def d_oracle(case, text):
+    res = {}
+    for l in text.split("\n"):
+        k, _, body = l.partition(":")
+        if k.isdigit():
+            res[int(k)] = [tuple(x.rsplit("/", 3)) for x in body.split(",") if x]
+    if len(res) != len(D_EXPRS):
+        return "output has %d result lines for %d expressions" % (len(res), len(D_EXPRS))
+    for k, e in enumerate(D_EXPRS):
+        v = res[k]
+        ids = [x[1] for x in v]
+        roots = [x[2] for x in v]
+        labels = ",".join(x[0] for x in v)
+        if len(set(ids)) != len(ids):
+            return "%s delivers a node twice: %s" % (e, labels)
+        seen, cur = set(), None
+        for t in roots:
+            if t != cur:
+                if t in seen:
+                    return "%s: nodes of different documents are interleaved: %s" % (e, labels)
+                seen.add(t); cur = t
+        for a, b in zip(v, v[1:]):
+            if a[2] == b[2] and not int(a[3]) < int(b[3]):
+                return "%s: not in document order inside a document: %s" % (e, labels)
+    refs = case["refs"]
+    lab = lambda k: [x[0] for x in res[k]]
+    if "" not in refs:
+        want = d_expected(refs)
+        for k in (0, 1, 2, 3):
+            if lab(k) != want:
+                return "%s -> %s, expected %s (references %s)" % (D_EXPRS[k], ",".join(lab(k)), ",".join(want), refs)
+        if sorted(lab(4)) != sorted(want):
+            return "%s -> %s is not the set %s" % (D_EXPRS[4], ",".join(lab(4)), ",".join(want))
+        if lab(7) != ["ROOT:s"] + want:
+            return "%s -> %s, expected ROOT:s,%s" % (D_EXPRS[7], ",".join(lab(7)), ",".join(want))
+        if lab(8) != ([want[0]] if len(want) == 1 else [want[0], want[-1]]):
+            return "%s -> %s, expected first and last of %s" % (D_EXPRS[8], ",".join(lab(8)), ",".join(want))
+    else:
+        known = [u for u in refs if u]
+        want = d_expected(known)
+        # what an empty reference denotes (nothing, the stylesheet, the source) is C02's business: zero or one more node
+        if sorted(set(lab(0)) & set(want)) != sorted(want) or len(lab(0)) not in (len(want), len(want) + 1):
+            return "%s -> %s, expected %s plus at most one document for the empty reference (references %s)" % (D_EXPRS[0], ",".join(lab(0)), ",".join(want), refs)
+        for k in (1, 2, 3):
+            if k != 1 and res[k] != res[0]:
+                return "%s -> %s differs from %s -> %s" % (D_EXPRS[k], ",".join(lab(k)), D_EXPRS[0], ",".join(lab(0)))
+        if sorted(res[4]) != sorted(res[0]):
+            return "%s is not the same set as %s" % (D_EXPRS[4], D_EXPRS[0])
+    return None
+
+
+def evaluate_d(ctx, n):
+    from vlib import xsltrun
+    cases = d_cases(ctx.rng, n)
+    out = xsltrun.run(cases, timeout=300)
+    orc = []
+    for c in cases:
+        o = out.get(c["id"])
+        refs = c["refs"]
+        docs = [u.partition("#")[0] for u in refs]
+        cls = ("repeat-nonadjacent" if any(docs[i] == docs[j] and any(x != docs[i] for x in docs[i + 1:j]) for i in range(len(docs)) for j in range(i + 2, len(docs)))
+               else "repeat-adjacent" if any(a == b for a, b in zip(docs, docs[1:])) else "distinct")
+        ctx.count("D:document():" + cls + ("+fragment" if any("#" in u for u in refs) else "") + ("+empty" if "" in refs else ""))
+        ctx.cov["evaluations"] += len(D_EXPRS)
+        replay_text = "# document() case; references: %s" % " ;; ".join(u if u else "(empty)" for u in refs)
+        if not o or o[0] != "ok":
+            orc.append({"case": replay_text, "what": "transformation failed: %r" % (o,), "known": None, "cls": "document()"})
+            continue
+        msg = d_oracle(c, o[1].decode("utf-8", "replace"))
+        if msg:
+            orc.append({"case": replay_text, "what": msg, "known": None, "cls": "document()"})
+    return orc
+
+
 def l_case(cid, docs, ops):
     return "%s|L|%s|O:%s" % (cid, "|".join(d.field for d in docs), " ".join(ops))
 
@@ -739,6 +876,7 @@ def run(ctx):
     corr, orc = evaluate(ctx, cases, impl, model)
     try:
         orc += evaluate_s(ctx, 80 if not ctx.thorough else 1500)
+        orc += evaluate_d(ctx, 60 if not ctx.thorough else 1200)
     except RuntimeError as e:
         ctx.broken.append("stylesheet stream: " + str(e)[-300:])
     new = [o for o in orc if not (o["known"] and o["known"] in known)]
@@ -785,6 +923,22 @@ def replay(ctx, path):
         if l.startswith("# stylesheet case") and "expressions: " in l:
             exprs = l.rstrip("\n").split("expressions: ", 1)[1].split(" ;; ")
             scases.append({"id": "s%d" % len(scases), "sheet": s_sheet(exprs), "source": S_SOURCE, "files": S_FILES, "exprs": exprs})
+    dcases = []
+    for l in open(path):
+        if l.startswith("# document() case; references: "):
+            refs = ["" if u == "(empty)" else u for u in l.rstrip("\n").split("references: ", 1)[1].split(" ;; ")]
+            src = "<s>" + "".join('<r u="%s"/>' % u for u in refs) + "</s>"
+            dcases.append({"id": "d%d" % len(dcases), "sheet": d_sheet(), "source": src, "files": D_FILES, "refs": refs})
+    if dcases:
+        from vlib import xsltrun
+        out = xsltrun.run(dcases, timeout=300)
+        for c in dcases:
+            o = out.get(c["id"])
+            msg = ("transformation failed: %r" % (o,)) if (not o or o[0] != "ok") else d_oracle(c, o[1].decode("utf-8", "replace"))
+            print("%s: document() over %s" % (c["id"], c["refs"]))
+            if msg:
+                print("# FAILS: " + msg)
+                bad = 1
     if scases:
         from vlib import xsltrun
         out = xsltrun.run(scases, timeout=300)
